@@ -76,6 +76,16 @@ def frame(verb, same_user, b_logged, b_cwd_i, b_rename, b_rest, b_passive, b_dat
     def snap_after():
         snaps["after"] = snapshot(conns["b"])
         snaps["b_replies_after"] = len(hb.reply_codes(wb))
+        # no mutable per-session container may be the same object in both sessions
+        a, b = conns.get("a"), conns["b"]
+        shared = []
+        if a is not None:
+            for k in b.keys():
+                if k in a and a[k].done() and b[k].done():
+                    va, vb = a[k].result(), b[k].result()
+                    if va is vb and isinstance(va, (set, list, dict)):
+                        shared.append(k)
+        snaps["shared"] = shared
 
     arg = ARGS_A[verb]
     ra = st.HookReader([(20, st.Line(verb.upper() + ((" " + arg) if arg else "") + "\r\n"), snap_before)], eof=False)
@@ -97,6 +107,9 @@ def frame(verb, same_user, b_logged, b_cwd_i, b_rename, b_rest, b_passive, b_dat
     if snaps.get("before") is None or snaps.get("after") is None:
         hb.KEY = "harness"
         return False
+    if snaps.get("shared"):
+        hb.KEY = "shared-mutable-state:" + ",".join(sorted(snaps["shared"]))
+        return False
     if snaps["before"] != snaps["after"]:
         diff = [k for k in set(snaps["before"]) | set(snaps["after"]) if snaps["before"].get(k) != snaps["after"].get(k)]
         hb.KEY = "b-state-changed:" + ",".join(sorted(diff))
@@ -113,6 +126,83 @@ def frame(verb, same_user, b_logged, b_cwd_i, b_rename, b_rest, b_passive, b_dat
     bd = conns["b_data"]
     if b_data and bd[1] is not None and bd[1].chunks:
         hb.KEY = "b-data-connection-used"
+        return False
+    return True
+
+
+A_EVENTS = ["ABOR", "QUIT", "<EOF>", "PASV", "RETR a/f", "USER bob", "REST 1"]
+
+
+def inflight(ev_i, b_kind_i, connect_late):
+    """session B has a transfer IN FLIGHT (worker waiting for its data connection, or mid-transfer on a slow data socket)
+    while session A sends ABOR / quits / vanishes / does anything else: B's transfer completes with all its bytes"""
+    hb.KEY = ""
+    ev = A_EVENTS[hb.conc(ev_i, 0, len(A_EVENTS) - 1)]
+    b_cmd = ["RETR b/g", "STOR b/new", "LIST b", "MLSD b"][hb.conc(b_kind_i, 0, 3)]
+    u1 = aioftp.User("bob", None, base_path="/srv")
+    server = st.make_server([u1], block_size=2, wait_future_timeout=500)
+    st.build_tree(server, TREE)
+    LS.started.clear()
+    LS.fail = None
+    loop = hb.new_loop()
+    wa, wb = hb.CollectWriter(), hb.CollectWriter()
+    datas = {}
+
+    def inj(writer, passive):
+        def f():
+            for key, c in server.connections.items():
+                if key.writer is writer and not ("user" in c and c["user"].done()):
+                    st.inject(server, c, dict(user=u1, logged=True, cwd="/", passive=passive), LS if not passive else None)
+        return f
+
+    def connect_b():
+        mine = None
+        for key, c in server.connections.items():
+            if key.writer is wb:
+                mine = c.passive_server
+        live = [(p, cb, l) for p, cb, l in LS.started if l is mine]
+        payload = [(3, b"u"), (3, b"p"), (3, b"!")] if b_cmd.startswith("STOR") else []
+        dr, dw = hb.ScriptReader(payload, eof=True), hb.CollectWriter()
+        datas["b"] = dw
+        asyncio.ensure_future(live[-1][1](dr, dw))
+
+    # B: PASV at 10, transfer command at 20, data connection either at 15 (mid-transfer when A acts) or at 60 (waiting when A acts)
+    b_items = [(10, st.Line("PASV\r\n"), inj(wb, False))]
+    if not connect_late:
+        b_items += [(5, st.Line("NOOP\r\n"), connect_b)]
+    b_items += [(5 if not connect_late else 10, st.Line(b_cmd + "\r\n"), None)]
+    if connect_late:
+        b_items += [(40, st.Line("NOOP\r\n"), connect_b)]
+    b_items += [(60, st.Line("PWD\r\n"), None)]
+    rb = st.HookReader(b_items, eof=True)
+    rb.final_gap = 10
+    a_items = [(5, st.Line("SYST\r\n"), inj(wa, True))]
+    if ev != "<EOF>":
+        a_items += [(18, st.Line(ev + "\r\n"), None)]
+    ra = st.HookReader(a_items, eof=True)
+    ra.final_gap = 18 if ev == "<EOF>" else 30
+
+    async def both():
+        await asyncio.gather(server.dispatcher(ra, wa), server.dispatcher(rb, wb))
+
+    try:
+        loop.run_until_complete(both())
+    except hb.vloop.Deadlock:
+        hb.KEY = "hang"
+        return False
+    codes_b = [c for c, sep, _ in hb.reply_codes(wb) if sep == " "]
+    hb.path_done("c17_inflight", ev + ":" + ",".join(codes_b))
+    done = {"RETR b/g": "226", "STOR b/new": "226", "LIST b": "226", "MLSD b": "200"}[b_cmd]
+    noop = ["502"]
+    want = ["220", "227"] + (noop if not connect_late else []) + ["150"] + (noop if connect_late else []) + [done, "257"]
+    if sorted(codes_b) != sorted(want) or codes_b[-1] != "257" or codes_b.index("150") > codes_b.index(done):
+        hb.KEY = "b-transcript"
+        return False
+    if b_cmd.startswith("RETR") and datas["b"].data() != b"world":
+        hb.KEY = "b-data"
+        return False
+    if b_cmd.startswith("STOR") and st.tree_paths(server).get("/srv/b/new") != b"up!":
+        hb.KEY = "b-stored"
         return False
     return True
 
